@@ -280,7 +280,8 @@ def oracle_path(req, out):
 # ----------------------------------------------------------------------------- database codec
 
 NAMES = ["work", "default", "", "@", "x y", 'q"uote', "back\\slash", "tab\there", "new\nline", "ünï", "日本", "😀", "a@b", "-x", "--", "\x01", "\x7f", " ", "  lead",
-         "Default", "DEFAULT", "defaul", "defaultx", "<&>", "\u2028", "a", "b", "B", "ab", "a b", "é", "e\u0301", "\ufffd", "null", "name", "0"]
+         "Default", "DEFAULT", "defaul", "defaultx", "<&>", "\u2028", "a", "b", "B", "ab", "a b", "é", "e\u0301", "\ufffd", "null", "name", "0",
+         "proj", "proj ", "proj\t", "proj\u00a0", " proj", "\tproj", "work ", "a\u3000"]
 TARGETS = ["a.klg", "my file.klg", 'q"uote.klg', "ü.klg", "日本.klg", "back\\slash.klg", "sub/b.klg", "emoji😀.klg", " lead.klg", "-dash.klg", "@at.klg",
            "tab\t.klg", "new\nline.klg", "percent%41.klg", "dot.", "..hidden", "...", "<&>.klg", "\u2028.klg", "sub dir/ü/c.klg", "\x7f.klg", "\x01.klg"]
 
@@ -359,43 +360,86 @@ def oracle_db(req, out):
 
 # ----------------------------------------------------------------------------- histories
 
+BASES = ["work.klg", "my file.klg", 'q"uote.klg', "ü.klg", "日本.klg", "a.klg", "-dash.klg", "@at.klg", "new\nline.klg", "dot.", "<&>.klg", "times"]
+DIRS = ["", "2023", "2024", "sub", "sub dir", "ü", "a/b", "a/c", 'q"d', "2023/q1"]
+
+
+def gen_targets(rng):
+    """target files: most histories use a few base names x a few directories (the same base name in several
+    directories, several names in one directory); the others take unrelated names from TARGETS"""
+    if rng.random() < 0.7:
+        bases = rng.sample(BASES, rng.choice([1, 1, 2, 2, 3]))
+        dirs = rng.sample(DIRS, rng.choice([2, 2, 3, 3]))
+        cells = [(d + "/" + b if d else b) for d in dirs for b in bases]
+        rng.shuffle(cells)
+        tnames = cells[:rng.randrange(2, 7)]
+    else:
+        tnames = rng.sample(TARGETS, rng.randrange(1, 6))
+    return [(t.encode("utf-8"), rng.choice("vvvvvvvvim")) for t in tnames]
+
+
 def gen_history(rng, bad, short=0.0):
-    nt = rng.randrange(1, 6)
-    tnames = rng.sample(TARGETS, nt)
-    targets = []
-    for t in tnames:
-        targets.append((t.encode("utf-8"), rng.choice("vvvvvvim")))
+    targets = gen_targets(rng)
+    nt = len(targets)
     pool = [rand_name(rng, bad) for _ in range(rng.randrange(2, 7))]
     def name(): return with_ats(rng, rng.choice(pool) if rng.random() < 0.9 else rand_name(rng, bad))
+    def spell(p):
+        j = rng.random()
+        if j < 0.12: p = b"./" + p
+        elif j < 0.22: p = b"zz/../" + p
+        elif j < 0.28: p = b".//" + p
+        elif j < 0.32: p = p + b"/"
+        elif j < 0.36: p = p + b"/."
+        return p
     def path():
         k = rng.random()
-        if k < 0.85:
-            p = rng.choice(targets)[0]
-            j = rng.random()
-            if j < 0.12: p = b"./" + p
-            elif j < 0.22: p = b"zz/../" + p
-            elif j < 0.28: p = b".//" + p
-            elif j < 0.32: p = p + b"/"
-            elif j < 0.36: p = p + b"/."
-            return p
-        if k < 0.93: return rng.choice([b"missing.klg", b"no/such.klg", b"", b".", b"sub"])
+        if k < 0.85: return spell(rng.choice(targets)[0])
+        if k < 0.93: return rng.choice([b"missing.klg", b"no/such.klg", b"", b".", b"sub", b"2023"])
         return rand_text(rng, 6, bad=0.3 if bad else 0).replace(b"\x00", b"0")
+    def related(prev):
+        """a target related to the previous one: the same file, the same base name in another directory,
+        another file in the same directory"""
+        d, _, base = prev.rpartition(b"/")
+        j = rng.random()
+        if j < 0.25: cands = [prev]
+        elif j < 0.75: cands = [t for t, _ in targets if t != prev and t.rpartition(b"/")[2] == base]
+        else: cands = [t for t, _ in targets if t != prev and t.rpartition(b"/")[0] == d]
+        return rng.choice(cands) if cands else rng.choice(targets)[0]
     ops = []
+    last = None  # (bare name, target) of the previous set
     nops = rng.randrange(1, 13) if rng.random() < short else rng.randrange(1, 41)
     for _ in range(nops):
         k = rng.random()
         if k < 0.40:
-            hasname = rng.random() < 0.85
-            ops.append("s:%s:%s:%s:%d:%s" % (hx(path()), rng.choice("rrra"), "f" if rng.random() < 0.2 else "n", hasname, hx(name()) if hasname else "-"))
+            force = "f" if rng.random() < 0.2 else "n"
+            if last is not None and rng.random() < 0.4:
+                # set the same bookmark again
+                bare, prev = last
+                t = related(prev)
+                nm = with_ats(rng, bare)
+                hasname = not (bare == b"" and rng.random() < 0.5)
+                last = (bare, t)
+                ops.append("s:%s:%s:%s:%d:%s" % (hx(spell(t)), rng.choice("rrra"), force, hasname, hx(nm) if hasname else "-"))
+            else:
+                hasname = rng.random() < 0.85
+                bare = (rng.choice(pool) if rng.random() < 0.9 else rand_name(rng, bad)) if hasname else b""
+                t = rng.choice(targets)[0] if rng.random() < 0.85 else None
+                p = spell(t) if t is not None else path()
+                if t is not None: last = (bare, t)
+                ops.append("s:%s:%s:%s:%d:%s" % (hx(p), rng.choice("rrra"), force, hasname, hx(with_ats(rng, bare)) if hasname else "-"))
         elif k < 0.55: ops.append("u:" + hx(name()))
         elif k < 0.59: ops.append("c")
         elif k < 0.71: ops.append("l")
-        elif k < 0.83: ops.append("i:%s:%s" % (rng.choice("pppdf"), hx(name())))
+        elif k < 0.83:
+            nm = with_ats(rng, last[0]) if last is not None and rng.random() < 0.4 else name()
+            ops.append("i:%s:%s" % (rng.choice("pppdf"), hx(nm)))
         else:
             args = []
             for _ in range(rng.choice([0, 1, 1, 1, 2])):
                 j = rng.random()
-                if j < 0.7: args.append("n" + hx(b"@" + name()))
+                if j < 0.7:
+                    nm = last[0] if last is not None and rng.random() < 0.4 else name()
+                    args.append("n" + hx(b"@" + nm))
                 elif j < 0.8: args.append("n" + hx(rng.choice([b"", b" ", b"   "])))
                 else: args.append(rng.choice("na") + hx(path()))
             ops.append(":".join(["r"] + args))
